@@ -42,7 +42,7 @@ use std::{
 use serde_json::{Value, json};
 use sozu_command_lib::{
     config::ListenerBuilder,
-    proto::command::{AddBackend, Cluster, LoadBalancingParams, request::RequestType},
+    proto::command::{AddBackend, Cluster, CustomHttpAnswers, ListenerType, LoadBalancingParams, request::RequestType},
 };
 
 use self::{
@@ -75,6 +75,9 @@ struct Cell {
     /// same frontends behind listeners with front_timeout 9 s > back_timeout 2 s
     front_long: SocketAddr,
     front_tls_long: SocketAddr,
+    /// same again, with 502/503/504 templates that keep the client connection alive
+    front_ka: SocketAddr,
+    front_tls_ka: SocketAddr,
     worker: Worker,
     state: Arc<BackState>,
     _backends: Vec<BackendServer>,
@@ -87,6 +90,8 @@ impl Cell {
         let front_tls = lab::sa(ip, 8443);
         let front_long = lab::sa(ip, 8081);
         let front_tls_long = lab::sa(ip, 8444);
+        let front_ka = lab::sa(ip, 8082);
+        let front_tls_ka = lab::sa(ip, 8445);
         let state = Arc::new(BackState::default());
         let mut backends = Vec::new();
         for port in [9000u16, 9001] {
@@ -125,6 +130,43 @@ impl Cell {
                     b.strict_sni_binding = Some(true);
                 });
         }
+        // listeners whose gateway-error templates do not close the client connection
+        let ka = |code: &str| Some(format!("HTTP/1.1 {code}\r\nContent-Length: 0\r\n\r\n"));
+        let ka_answers = CustomHttpAnswers {
+            answer_502: ka("502 Bad Gateway"),
+            answer_503: ka("503 Service Unavailable"),
+            answer_504: ka("504 Gateway Timeout"),
+            ..Default::default()
+        };
+        // (debugging aid: C02_KA_TIMEOUTS=<front>,<back> swaps the roles so that the frontend
+        // timer is the one that abandons the backend exchange)
+        let (ka_front, ka_back) = std::env::var("C02_KA_TIMEOUTS")
+            .ok()
+            .and_then(|v| v.split_once(',').and_then(|(a, b)| Some((a.parse().ok()?, b.parse().ok()?))))
+            .unwrap_or((LONG_FRONT_TIMEOUT_S, BACK_TIMEOUT_S));
+        let ka_timeouts = |b: &mut ListenerBuilder| {
+            b.with_front_timeout(Some(ka_front))
+                .with_back_timeout(Some(ka_back))
+                .with_connect_timeout(Some(CONNECT_TIMEOUT_S))
+                .with_request_timeout(Some(LONG_FRONT_TIMEOUT_S));
+        };
+        {
+            let mut b = ListenerBuilder::new_http(front_ka.into());
+            ka_timeouts(&mut b);
+            ok = ok
+                && b.to_http(None).is_ok_and(|mut l| {
+                    l.http_answers = Some(ka_answers.clone());
+                    w.ok(RequestType::AddHttpListener(l)) && w.activate(front_ka, ListenerType::Http)
+                });
+            let mut b = ListenerBuilder::new_https(front_tls_ka.into());
+            ka_timeouts(&mut b);
+            b.strict_sni_binding = Some(true);
+            ok = ok
+                && b.to_tls(None).is_ok_and(|mut l| {
+                    l.http_answers = Some(ka_answers.clone());
+                    w.ok(RequestType::AddHttpsListener(l)) && w.activate(front_tls_ka, ListenerType::Https)
+                });
+        }
         let cluster = |id: &str| Cluster { cluster_id: id.into(), ..Default::default() };
         ok = ok
             && w.add_cluster(cluster("ok"))
@@ -136,8 +178,8 @@ impl Cell {
         for i in 0..STICKY_SLOTS {
             ok = ok && w.add_cluster(Cluster { sticky_session: true, ..cluster(&format!("st{i}")) });
         }
-        for addr in [front, front_tls, front_long, front_tls_long] {
-            let tls_side = addr == front_tls || addr == front_tls_long;
+        for addr in [front, front_tls, front_long, front_tls_long, front_ka, front_tls_ka] {
+            let tls_side = addr == front_tls || addr == front_tls_long || addr == front_tls_ka;
             let mut routes: Vec<(&str, Option<String>)> = vec![
                 ("ok.test", Some("ok".into())),
                 ("okb.test", Some("ok".into())),
@@ -182,12 +224,13 @@ impl Cell {
         let cert = std::fs::read_to_string("/repo/lib/assets/certificate.pem").unwrap_or_default();
         let key = std::fs::read_to_string("/repo/lib/assets/key.pem").unwrap_or_default();
         let names: Vec<String> = CERT_NAMES.iter().chain(STICKY_HOSTS.iter()).map(|s| s.to_string()).collect();
-        ok = ok && w.add_certificate(front_tls, &cert, vec![], &key, names.clone()) && w.add_certificate(front_tls_long, &cert, vec![], &key, names);
+        ok = ok && w.add_certificate(front_tls, &cert, vec![], &key, names.clone()) && w.add_certificate(front_tls_long, &cert, vec![], &key, names.clone())
+            && w.add_certificate(front_tls_ka, &cert, vec![], &key, names);
         if !ok {
             let _ = w.stop();
             return Err("sozu refused part of the cell configuration".into());
         }
-        Ok(Cell { ip, front, front_tls, front_long, front_tls_long, worker: w, state, _backends: backends })
+        Ok(Cell { ip, front, front_tls, front_long, front_tls_long, front_ka, front_tls_ka, worker: w, state, _backends: backends })
     }
 }
 
@@ -201,8 +244,8 @@ struct Ran {
     harness_error: Option<String>,
 }
 
-fn tls_connect(cell: &Cell, long: bool, src: Option<IpAddr>, sni: &str, alpn: &str) -> Result<tls::TlsClient, String> {
-    let tcp = peers::connect(if long { cell.front_tls_long } else { cell.front_tls }, src, &IoProgram::fast(), Duration::from_secs(3)).map_err(|e| format!("connect: {e}"))?;
+fn tls_connect(cell: &Cell, lst: u8, src: Option<IpAddr>, sni: &str, alpn: &str) -> Result<tls::TlsClient, String> {
+    let tcp = peers::connect([cell.front_tls, cell.front_tls_long, cell.front_tls_ka][lst as usize], src, &IoProgram::fast(), Duration::from_secs(3)).map_err(|e| format!("connect: {e}"))?;
     let (t, info) = tls::TlsClient::handshake(tcp, sni, tls::client_config(&[alpn]), Duration::from_secs(4)).map_err(|e| format!("tls: {e}"))?;
     if info.alpn.as_deref() != Some(alpn.as_bytes()) {
         return Err(format!("ALPN {alpn} not selected: {:?}", info.alpn));
@@ -210,11 +253,15 @@ fn tls_connect(cell: &Cell, long: bool, src: Option<IpAddr>, sni: &str, alpn: &s
     Ok(t)
 }
 
+fn listener_of(sc: &Scenario) -> u8 {
+    if sc.ka_answers { 2 } else if sc.long_front { 1 } else { 0 }
+}
+
 fn sni_for(sc: &Scenario) -> &'static str {
     if sc.reqs.len() == 1 && sc.reqs[0].fault != Fault::WrongCert { sc.reqs[0].host } else { "ok.test" }
 }
 
-fn run_on_front(cell: &Cell, front: Front, long: bool, src: Option<IpAddr>, sni: &str, reqs: &[ReqSpec]) -> Ran {
+fn run_on_front(cell: &Cell, front: Front, lst: u8, src: Option<IpAddr>, sni: &str, reqs: &[ReqSpec]) -> Ran {
     let mut ran = Ran { outcomes: Vec::new(), ledger: Vec::new(), trace: Vec::new(), harness_error: None };
     fn seq<T: h2::Transport>(mut c: H1Client<T>, reqs: &[ReqSpec]) -> Vec<Outcome> {
         let mut out = Vec::new();
@@ -224,15 +271,15 @@ fn run_on_front(cell: &Cell, front: Front, long: bool, src: Option<IpAddr>, sni:
         out
     }
     match front {
-        Front::H1Tcp => match peers::connect(if long { cell.front_long } else { cell.front }, src, &IoProgram::fast(), Duration::from_secs(3)) {
+        Front::H1Tcp => match peers::connect([cell.front, cell.front_long, cell.front_ka][lst as usize], src, &IoProgram::fast(), Duration::from_secs(3)) {
             Ok(tcp) => ran.outcomes = seq(H1Client::new(tcp), reqs),
             Err(e) => ran.harness_error = Some(format!("connect: {e}")),
         },
-        Front::H1Tls => match tls_connect(cell, long, src, sni, "http/1.1") {
+        Front::H1Tls => match tls_connect(cell, lst, src, sni, "http/1.1") {
             Ok(t) => ran.outcomes = seq(H1Client::new(t), reqs),
             Err(e) => ran.harness_error = Some(e),
         },
-        Front::H2Tls => match tls_connect(cell, long, src, sni, "h2") {
+        Front::H2Tls => match tls_connect(cell, lst, src, sni, "h2") {
             Ok(t) => {
                 let mut c = H2Conn::new(t, Role::Client);
                 let (o, l, t) = run_h2(&mut c, reqs);
@@ -250,7 +297,7 @@ fn run_on_front(cell: &Cell, front: Front, long: bool, src: Option<IpAddr>, sni:
 fn run_scenario(cell: &Cell, sc: &Scenario) -> Ran {
     let per_ip = sc.reqs.iter().any(|r| r.fault == Fault::PerIp);
     if !per_ip {
-        return run_on_front(cell, sc.front, sc.long_front, None, sni_for(sc), &sc.reqs);
+        return run_on_front(cell, sc.front, listener_of(sc), None, sni_for(sc), &sc.reqs);
     }
     // per-(cluster, source IP) limit of 1: a first connection from a private source address holds
     // the slot while the scenario's connection, from the same address, asks for the same cluster
@@ -269,7 +316,7 @@ fn run_scenario(cell: &Cell, sc: &Scenario) -> Ran {
             }
             Err(e) => return Ran { outcomes: vec![], ledger: vec![], trace: vec![], harness_error: Some(format!("holder connect: {e}")) },
         },
-        _ => match tls_connect(cell, false, Some(src), "lim.test", "http/1.1") {
+        _ => match tls_connect(cell, 0, Some(src), "lim.test", "http/1.1") {
             Ok(t) => {
                 let mut c = H1Client::new(t);
                 let o = c.exchange(&holder_spec, false);
@@ -282,7 +329,7 @@ fn run_scenario(cell: &Cell, sc: &Scenario) -> Ran {
     if !holder_ok {
         return Ran { outcomes: vec![], ledger: vec![], trace: vec![], harness_error: Some("the slot-holding connection did not get its 200".into()) };
     }
-    run_on_front(cell, sc.front, sc.long_front, Some(src), sni_for(sc), &sc.reqs)
+    run_on_front(cell, sc.front, listener_of(sc), Some(src), sni_for(sc), &sc.reqs)
 }
 
 // ---- oracle -------------------------------------------------------------------------------------
@@ -438,6 +485,17 @@ fn judge(sc: &Scenario, i: usize, o: &Outcome, att: &Att) -> Verdict {
     if st == 200 {
         let full = r.expected_body();
         if o.body != full {
+            if let Some(other) = sc.reqs.iter().find(|x| x.id != r.id && x.len > 0 && x.expected_body() == o.body) {
+                return Verdict::Violation(
+                    format!("answers/foreign_answer/{}/{}", sc.reqs[sc.faulty].cause(), pair),
+                    format!(
+                        "request {} (position {i}) was answered with the backend's answer to request {} ({}) of the same client connection: the body carries that request's marker",
+                        r.id,
+                        other.id,
+                        other.cause()
+                    ),
+                );
+            }
             if r.back == Back::Proxy && r.fault != Fault::None {
                 return wrong("got200".into());
             }
@@ -497,7 +555,7 @@ fn judge(sc: &Scenario, i: usize, o: &Outcome, att: &Att) -> Verdict {
         Fault::PerIp => expect_one(&[429]),
         Fault::NoBackend | Fault::Refused => expect_one(&[503]),
         Fault::Close { .. } | Fault::H2cClose { .. } => family_closed(st, att).unwrap_or_else(|| wrong(got.clone())),
-        Fault::Stall { .. } | Fault::H2cStall { .. } | Fault::InterimStall { .. } => expect_one(&[504]),
+        Fault::Stall { .. } | Fault::H2cStall { .. } | Fault::InterimStall { .. } | Fault::Late { .. } => expect_one(&[504]),
         // one backend of the cluster is up: "no usable backend" (503) is not the cause
         Fault::StickyDead { .. } | Fault::StickyLive { .. } => wrong(got.clone()),
         Fault::ClientStall { part } if *part < 2 => expect_one(&[408]),
@@ -512,7 +570,8 @@ fn witness(ctx: &Ctx, cell_idx: u64, sc: &Scenario, i: usize, o: &Outcome, att: 
         "expected": "one answer whose status matches the cause, or (once a response has started) an explicit abort; never a complete message shorter than declared",
         "observed": o.describe(),
         "all_outcomes": ran.outcomes.iter().map(|x| format!("{:?}/{}/{}B/{}ms", x.status, x.end.name(), x.body.len(), x.t_ms)).collect::<Vec<_>>(),
-        "backend_record": {"attempts_seen": att.seen, "attempts_faulted": att.faulted, "attempts_served": att.served, "h2c_requests_never_ended_by_sozu": att.never_ended},
+        "backend_record": {"attempts_seen": att.seen, "attempts_faulted": att.faulted, "attempts_served": att.served, "h2c_requests_never_ended_by_sozu": att.never_ended,
+                           "later_request_written_on_its_connection_while_unanswered": att.followed_while_owing},
         "h2_ledger": ran.ledger, "h2_frame_trace": ran.trace, "reproduced_alone": rerun,
         "timeouts_s": {"front": FRONT_TIMEOUT_S, "back": BACK_TIMEOUT_S, "connect": CONNECT_TIMEOUT_S, "request": REQUEST_TIMEOUT_S},
     })
@@ -610,6 +669,30 @@ fn run_and_judge(ctx: &Ctx, cell: &Cell, cell_idx: u64, sc: &Scenario, rep: &mut
                 }
             }
         }
+        let v = match v {
+            Verdict::Violation(sig, what)
+                if sc.ka_answers
+                    && i == sc.faulty + 1
+                    && sig.starts_with("answers/sibling_harmed/")
+                    && cell.state.record(sc.reqs[sc.faulty].id).followed_while_owing > 0 =>
+            {
+                let got = sig.rsplit('/').next().unwrap_or("failed").to_owned();
+                Verdict::Violation(
+                    format!("answers/request_written_on_backend_connection_owing_an_answer/{pair}/{got}"),
+                    format!("{what}; the backend saw this request arrive on the connection on which it still owed the answer to the previous, timed-out request"),
+                )
+            }
+            v => v,
+        };
+        if sc.ka_answers && i == sc.faulty + 1 && !matches!(v, Verdict::Inconclusive(_) | Verdict::Late(_)) {
+            let kind = match &sc.reqs[sc.faulty].fault {
+                Fault::Late { .. } => "504_then_late_backend_answer",
+                Fault::Stall { .. } => "504_backend_stays_silent",
+                Fault::Close { .. } => "502",
+                _ => "503",
+            };
+            rep.obs(&format!("class/keepalive_default_answer_then_next_request/{kind}"), 1);
+        }
         match v {
             Verdict::Held(how) => {
                 if r.is_healthy() && sc.reqs.len() > 1 {
@@ -703,7 +786,7 @@ const SIB_LENS: [usize; 7] = [0, 1, 8, 1000, 5000, 20_000, 40_000];
 impl Gen {
     fn push(&mut self, front: Front, mux: Mux, reqs: Vec<ReqSpec>, faulty: usize, tag: &'static str) {
         let idx = self.out.len();
-        self.out.push(Scenario { idx, front, mux, reqs, faulty, tag, long_front: false });
+        self.out.push(Scenario { idx, front, mux, reqs, faulty, tag, long_front: false, ka_answers: false });
     }
     fn single(&mut self, front: Front, r: ReqSpec, tag: &'static str) {
         self.push(front, Mux::Single, vec![r], 0, tag);
@@ -1065,6 +1148,35 @@ fn extra_round(g: &mut Gen) {
     }
 }
 
+/// a gateway-error answer that keeps the client connection alive, then the next request: the
+/// backend exchange abandoned by the default answer must not leak into it
+fn keepalive_answers_round(g: &mut Gen) {
+    for front in Front::ALL {
+        let firsts = [
+            (h1f(Fault::Late { pre: 0, after_ms: 2700 }), "f1.test"),
+            (h1f(Fault::Late { pre: 20, after_ms: 2700 }), "f1.test"),
+            (h1f(Fault::Stall { k: 0 }), "f1.test"),
+            (h1f(Fault::Close { k: 12, rst: false }), "f1.test"),
+            (h1f(Fault::Close { k: 12, rst: true }), "f1.test"),
+            (routing(&Fault::NoBackend), "ok.test"),
+        ];
+        for (mut first, next_host) in firsts {
+            first.len = 64;
+            let mut second = ReqSpec::new(next_host, Back::H1, Fault::None);
+            second.len = 64;
+            // on H2 the second stream is opened once the first one has its answer (2 s)
+            if !front.is_h1() {
+                second.gap_ms = 2500;
+            }
+            let mux = if front.is_h1() { Mux::KeepAlive } else { Mux::H2Streams };
+            g.push(front, mux, vec![first, second], 0, "keepalive_answers");
+            if let Some(sc) = g.out.last_mut() {
+                sc.ka_answers = true;
+            }
+        }
+    }
+}
+
 fn catalogue(ctx: &Ctx) -> Vec<Scenario> {
     let quick = ctx.tier == crate::common::Tier::Quick;
     let rounds = ctx.opt_u64("rounds", ctx.tier.pick(1, 20));
@@ -1074,6 +1186,7 @@ fn catalogue(ctx: &Ctx) -> Vec<Scenario> {
         g.rng = Rng::for_case(ctx.seed, 0xC02, round);
         one_round(&mut g, quick);
         extra_round(&mut g);
+        keepalive_answers_round(&mut g);
     }
     let mut out = g.out;
     // deal the scenarios to the cells in a seeded order, so the slow (timeout) ones spread out
@@ -1139,6 +1252,7 @@ fn run_cell(ctx: &Ctx, cell_idx: u64, n_cells: u64, all: &[Scenario], only: Opti
         rep.merge(l);
     }
     rep.obs_max("h2c_streams_sharing_one_backend_connection", cell.state.h2c_max_streams.load(Ordering::SeqCst) as u64);
+    rep.obs("request_written_on_backend_connection_owing_an_answer", cell.state.written_on_owing_connection.load(Ordering::SeqCst) as u64);
     rep.obs_max("h1_requests_on_one_backend_connection", cell.state.h1_max_reuse.load(Ordering::SeqCst) as u64);
     rep.obs("backend_connections/h1", cell.state.h1_conns.load(Ordering::SeqCst) as u64);
     rep.obs("backend_connections/h2c", cell.state.h2c_conns.load(Ordering::SeqCst) as u64);
@@ -1216,6 +1330,11 @@ pub fn run(ctx: &Ctx) -> Report {
         "class/interim_response_then_silence_back_timeout_below_front_timeout",
         "class/control_silent_backend_on_long_front_listener",
         "cause/sticky_backend_up",
+        "cause/backend_answers_after_timeout",
+        "class/keepalive_default_answer_then_next_request/504_then_late_backend_answer",
+        "class/keepalive_default_answer_then_next_request/504_backend_stays_silent",
+        "class/keepalive_default_answer_then_next_request/502",
+        "class/keepalive_default_answer_then_next_request/503",
         "held/200_from_the_live_backend_of_the_sticky_cluster",
     ] {
         rep.require(k);
